@@ -96,6 +96,7 @@ func (w *World) StreamSession(name string, maxMsgs int64, ackFrac, nackFrac floa
 				if d.State == Out && !d.dlEligible() && d.why(must, lo, hi) == "" {
 					p, sig := propForMiss(d)
 					w.violate(p, "stream:"+sig, "stream on %s#%d idle at %s with %d/%d outstanding did not send %s", name, s.Gen, ts(hi), len(pending), capacity, d)
+					w.siblingBlame(d, "stream:"+sig, fmt.Sprintf("stream on %s did not send %s", name, d))
 					d.Lost = true
 				}
 			}
@@ -116,6 +117,16 @@ func (w *World) StreamSession(name string, maxMsgs int64, ackFrac, nackFrac floa
 			acks = append(acks, id)
 		case x < ackFrac+nackFrac:
 			nacks = append(nacks, id)
+		}
+	}
+	// also acknowledge, on this stream, ids that were handed out earlier by other
+	// means (unary pulls, earlier streams): a streaming ack is an ack
+	if ackFrac > 0 && live {
+		for _, id := range deliveredIDs(s, true) {
+			if !pending[id] && w.R.Intn(2) == 0 {
+				acks = append(acks, id)
+				w.stat("stream_acks_of_foreign_deliveries", 1)
+			}
 		}
 	}
 	sortStrings(acks)
